@@ -95,6 +95,49 @@ Example ex_cff_only : forall r, M_cff_subset ex_cid [0; 3; 1] = Ok r -> r_sel r 
 Proof. vm_compute. intros r H. inversion H. reflexivity. Qed.
 
 (* ------------------------------------------------------------------ *)
+(* Blank glyphs (zero-length glyf entries).  0 .notdef, 1 space (blank),
+   2 A, 3 nbspace = comp(space), 4 Aspace = comp(A, space), 5 outer =
+   comp(nbspace), 6 thinspace (blank, not used), 7 figurespace (blank, same
+   width as space).  The blank component is appended like any other, also
+   when it is reachable only through the nested composite, and the references
+   lead to it (new glyph 5), not to glyph 0. *)
+Definition ex_blank : font :=
+  mkFont KGlyf
+    [sg 100 500 0; sg blank_outline 250 1; sg 102 600 2; cg 103 250 3 [1]; cg 104 850 4 [2; 1];
+     cg 105 250 5 [3]; sg blank_outline 120 6; sg blank_outline 250 7]
+    [] [] [[(32, 1); (65, 2); (160, 3)]] None [] [].
+
+Example ex_blank_wf : wf_fontb ex_blank = true /\ wf_listb ex_blank [0; 5; 4] = true /\
+  map is_blank (f_glyphs ex_blank) = [false; true; false; false; false; false; true; true].
+Proof. vm_compute. repeat split. Qed.
+
+Example ex_blank_appended : forall r, M_subset [] ex_blank [0; 5; 4] = Ok r ->
+  r_sel r = [0; 5; 4; 3; 2; 1] /\
+  map g_comps (f_glyphs (r_font r)) = [[]; [3]; [4; 5]; [5]; []; []] /\
+  map is_blank (f_glyphs (r_font r)) = [false; false; false; false; false; true] /\
+  map g_name (f_glyphs (r_font r)) = [0; 5; 4; 3; 2; 1].
+Proof. vm_compute. intros r H. inversion H. repeat split. Qed.
+
+(* only the outer composite listed: space is two levels down *)
+Example ex_blank_nested_only : forall r, M_subset [] ex_blank [0; 5] = Ok r ->
+  r_sel r = [0; 5; 3; 1] /\ map g_comps (f_glyphs (r_font r)) = [[]; [2]; [3]; []].
+Proof. vm_compute. intros r H. inversion H. repeat split. Qed.
+
+(* a listed blank glyph keeps its place; another blank glyph with the same
+   width is a different glyph (name 7, not 1) and is not pulled in *)
+Example ex_blank_listed : forall r, M_subset [] ex_blank [0; 7; 3; 1] = Ok r ->
+  r_sel r = [0; 7; 3; 1] /\ map g_comps (f_glyphs (r_font r)) = [[]; []; [3]; []] /\
+  f_cmaps (r_font r) = [[(32, 3); (160, 2)]].
+Proof. vm_compute. intros r H. inversion H. repeat split. Qed.
+
+Example ex_blank_canonical :
+  match run false [] ex_blank [0; 5; 4], run false [2; 0; 1]%nat ex_blank [0; 5; 4], run_spec false ex_blank [0; 5; 4] with
+  | RObs o, RObs o2, Some o' => o = o' /\ o2 = o'
+  | _, _, _ => False
+  end.
+Proof. vm_compute. split; reflexivity. Qed.
+
+(* ------------------------------------------------------------------ *)
 (* What the theorems do not claim (stated so that nobody reads more into
    them): a character whose glyph is only an appended extra is NOT mapped in
    the subset (the cmap is built from the given list) ... *)
@@ -129,6 +172,21 @@ Qed.
    does not implement *)
 Example out_of_range_panics : M_subset [] ex_cff [0; 9] = Panic.
 Proof. vm_compute. reflexivity. Qed.
+
+(* GSUB 2.1 / 3.1: the rules are collected, then the rebuild panics *)
+Example gsub21_panics :
+  M_subset [] (mkFont KGlyf [sg 1 1 0; sg 2 2 1; sg 3 3 2] [] [] [] None [[Multi false [(1, [2; 2])]]] []) [0] = Panic.
+Proof. vm_compute. reflexivity. Qed.
+
+Example gsub31_panics :
+  M_subset [] (mkFont KGlyf [sg 1 1 0; sg 2 2 1; sg 3 3 2] [] [] [] None [[Multi true [(1, [2; 0])]]] []) [0; 1] = Panic.
+Proof. vm_compute. reflexivity. Qed.
+
+(* the GSUB table of a subset carries 1.2 subtables: a subset cannot be
+   subsetted again *)
+Example subset_of_subset_panics : forall r, M_subset [] ex_glyf ex_list = Ok r ->
+  M_subset [] (r_font r) [0; 1] = Panic.
+Proof. vm_compute. intros r H. inversion H. reflexivity. Qed.
 
 Example gsub12_panics :
   M_subset [] (mkFont KCff [sg 1 1 0; sg 2 2 1] [44] [] [] None [[Single2 [(1, 0)]]] []) [0] = Panic.
